@@ -5,7 +5,7 @@ From Coq.Strings Require Import Byte.
 From CP Require Import Core.Bytes Core.Result Core.Show Prim.Int Base.Enum Lemmas.IntLemmas Lemmas.EnumLemmas Lemmas.VersionOrder.
 From CPGen Require Import Tables.
 Import ListNotations.
-Open Scope string_scope.
+Local Open Scope string_scope.
 Open Scope Z_scope.
 
 Definition widthb (w : Z) : bool := existsb (Z.eqb w) widths.
